@@ -1,6 +1,8 @@
 import WebpVerif.Model.Enc
 import WebpVerif.Model.LosslessKernels
 import WebpVerif.Spec.Lossless
+import WebpVerif.Lemmas.BitWriter
+import WebpVerif.Lemmas.BitReader
 
 /-!
 # C04 — the lossless encoder round-trips every image exactly
@@ -113,5 +115,33 @@ theorem tokens_inv (px : List (List Nat)) : ∀ fuel, px.length ≤ fuel →
 -- non-vacuity / regression: a whole tiny image through the model and the specification decoder
 example : tokenize [[1, 2, 3, 4], [1, 2, 3, 4], [1, 2, 3, 4], [9, 9, 9, 9]] 4 = [([1, 2, 3, 4], 2), ([9, 9, 9, 9], 0)] := by decide
 example : lengthToSymbol 4096 = (23, 10) := by decide
+
+/-! ### bit level: what `BitWriter` writes is what the decoder's bit reader reads -/
+
+/-- **The bit writer emits exactly the written fields.** For every sequence of
+    `write_bits(bits, n)` calls (`n ≤ 64`, `bits < 2^n`) followed by `flush()`, the output bytes
+    are the little-endian bytes of the number whose binary digits are the fields in order, LSB
+    first, zero-padded to a whole number of bytes - whatever the interplay of the 64-bit buffer,
+    the 8-byte flushes and fields straddling a word boundary (incl. the `checked_shr` corner when
+    the buffer was empty) -/
+theorem writer_emits_fields (ws : List (Nat × Nat)) (hv : BitWriterProof.Valid ws) :
+    BitReader.le64 (BitWriterProof.output ws).toList = (BitWriterProof.streamOf ws).1 ∧
+    (BitWriterProof.output ws).size = ((BitWriterProof.streamOf ws).2 + 7) / 8 :=
+  BitWriterProof.output_spec ws hv
+
+/-- **Write/read link.** Whatever was written as the field `(bits, n)` after the fields `pre`
+    is what the specification's `ReadBits(n)` - and, by `C01.read_bits_is_stream_window`, this
+    crate's bit reader under every refill schedule - returns at that bit position of the output -/
+theorem written_field_is_read_back (pre post : List (Nat × Nat)) (bits n : Nat)
+    (hv : BitWriterProof.Valid (pre ++ (bits, n) :: post)) :
+    (BitReader.le64 (BitWriterProof.output (pre ++ (bits, n) :: post)).toList >>> (BitWriterProof.streamOf pre).2) % 2 ^ n = bits := by
+  have e : BitReader.le64 (BitWriterProof.output (pre ++ (bits, n) :: post)).toList =
+      (BitWriterProof.streamOf (pre ++ (bits, n) :: post)).1 := (BitWriterProof.output_spec _ hv).1
+  rw [e]
+  exact BitWriterProof.field_window pre post bits n hv
+
+/-- non-vacuity: fields that straddle the 64-bit buffer boundary -/
+example : BitWriterProof.output [(0x2f, 8), (5, 14), (9, 14), (1, 1), (0, 3), (0x1ffffffffff, 41), (3, 2)] =
+    #[0x2f, 5, 64, 2, 16, 255, 255, 255, 255, 255, 7] := by decide
 
 end C04
